@@ -514,7 +514,7 @@ func zzRunOps(t *zzT, check bool) {
 //zz:stub (*~/pkg/blockchain.Transaction).Size zzStubTxSize
 //zz:stub (*~/pkg/blockchain.Transaction).Encode zzStubTxEncode
 //zz:quick n=3 K=3 senders=0 prune=1 symsize=0
-//zz:thorough n=3 K=4 senders=1 symsize=1 budget=1800s
+//zz:thorough n=3 K=4 senders=1 prune=1 symsize=0 budget=3600s paths=4000000
 func zzH_C14_pool_invariants(t *zzT) {
 	zzRunOps(t, true)
 }
@@ -527,7 +527,7 @@ func zzH_C14_pool_invariants(t *zzT) {
 //zz:stub (*~/pkg/blockchain.Transaction).Size zzStubTxSize
 //zz:stub (*~/pkg/blockchain.Transaction).Encode zzStubTxEncode
 //zz:quick n=3 K=3 senders=0 prune=1 symsize=0
-//zz:thorough n=3 K=4 senders=1 symsize=1 budget=1800s
+//zz:thorough n=3 K=4 senders=1 prune=1 symsize=0 budget=3600s paths=4000000
 func zzH_C14_no_operation_blocks(t *zzT) {
 	zzRunOps(t, false)
 }
